@@ -78,6 +78,9 @@ def bounds(tier):
                             "lists": "every single pattern of length 1..2 and every ordered pair of patterns of length 1 (78 lists) x "
                                      "every name of length 0..%d, all routes; every ordered pair of patterns of length 1..2 (42^2 lists) x "
                                      "every name of length 0..2, the routes %s" % (n, LIST_ROUTES_PAIRS),
+                            "newline_patterns": "every pattern of length 1..3 over the pattern alphabet + newline that contains a "
+                                                "newline, alone and (length <= 2) after a plain pattern, through globs_to_re "
+                                                "(list, tuple, generator) x every name of length 0..2",
                             "long_lists": "%d lists of 1..8 copies of %r after a lead-in pattern of 0..13 characters (joined text of "
                                           "13..125 characters) x names %r x routes %s" % (len(long_lists()), LONG_PATTERN, LONG_NAMES, LONG_ROUTES),
                             "warm-up": "where a route edits or copies an existing paragraph, that paragraph first held %r and "
@@ -374,6 +377,10 @@ def listroute_lists(u):
     pa = u["pa"]
     if u["space"] == "long-lists":
         return long_lists()
+    if u["space"] == "newline-patterns":
+        # patterns with a newline in them (the quantifier names them; a Files field cannot carry one, globs_to_re can)
+        ps = [p for p in strings(pa + ["\n"], 1, 3) if "\n" in p]
+        return [[p] for p in ps] + [[pa[0], p] for p in ps if len(p) <= 2]
     if u["space"] == "small-lists":
         return [[p] for p in strings(pa, 1, 2)] + [[p, q] for p in pa for q in pa]
     return [[u["first"], q] for q in strings(pa, 1, 2)]
@@ -479,6 +486,9 @@ def units(tier, seed):
         out.append(dict(base, part="listroutes", space="small-lists", routes=LIST_ROUTES[i:i + 4]))
     for p in short:
         out.append(dict(base, n=2, part="listroutes", space="pairs", first=p, routes=list(LIST_ROUTES_PAIRS)))
+    # ... patterns containing a newline, where the pattern list does not pass through a Files field
+    out.append(dict(base, n=2, part="listroutes", space="newline-patterns",
+                    routes=["globs_to_re-list", "globs_to_re-tuple", "globs_to_re-generator"]))
     # ... and lists long enough to be folded by whoever writes the field
     out.append(dict(base, part="listroutes", space="long-lists", routes=list(LONG_ROUTES), names=list(LONG_NAMES)))
     # ... with other runs of empty and white-space-only lines between the paragraphs
